@@ -799,8 +799,8 @@ TxRecoverFaults(cfg, s, ev) ==
 \* ------------------------------------------------------------------ x/staking messages and the x/node staking hooks
 \* Exchange rate 1 (no slashing in the modelled world): shares = tokens.  vol is the package variable
 \* sharesBeforeModified of x/node/keeper/hooks.go together with the delegation it was recorded for:
-\* "0" when clear, otherwise "<shares>.000000000000000000@<delegator>/<validator>".
-VolOf(n, d, v) == ToString(n) \o ".000000000000000000@" \o d \o "/" \o v
+\* "0" when clear, otherwise "<shares>.000000000000000000" (the delegation it belongs to is not projected).
+VolOf(n, d, v) == ToString(n) \o ".000000000000000000"
 ValOf(w, v) == Get(w.vals, "v", v)
 SetDeleg(cfg, w, d, v, shares) ==
     LET others == SelectSeq(w.delegs, LAMBDA x : ~(x.d = d /\ x.v = v))
